@@ -171,7 +171,40 @@ impl<'a> BootInformation<'a> {
 //@        slice_addr(r.buffer) == ref_addr(self.0) + 8,
 //@        slice_prov(r.buffer) == ref_prov(self.0),
 //@        r.buffer@.len() == val_size(self.0) - 8,
+//@        mbi_iter(self, r),
 //@end
+
+//@extract multiboot2/src/boot_information.rs :: impl<'a> BootInformation<'a> :: fn get_tag
+//@  ret r
+//@  closure 0: |tag: &&'a DynSizedStructure<TagHeader>| -> (b: bool) ensures b == (dyn_hdr(*tag).typ.0 == spec_tag_num(T::ID))
+//@  closure 1: |tag: &'a DynSizedStructure<TagHeader>| -> (c: &'a T) requires dyn_wf(tag) ensures cast_post(tag, c)
+//@  rewrite /self\s*\.tags\(\)\s*\.find\(/ => /tagiter_find_owned(self.tags(), /
+//@  spec:
+//@    requires self.wf(), panics_allowed(),
+//@    ensures
+//@        // C04: the first tag in walk order whose type number is T::ID, viewed as T; nothing when there is none
+//@        mb_getter_post::<T>(self, spec_tag_num(T::ID), r),
+//@end
+}
+
+/// C04: `r` is the typed view of the first tag of the region's walk whose type number is `num`; `None`: there is none
+pub open spec fn mb_getter_post<'a, T: MaybeDynSized<Header = TagHeader> + ?Sized>(b: &BootInformation<'a>, num: u32, r: Option<&'a T>) -> bool {
+    exists|it: TagIter<'a, TagHeader>| #[trigger] mbi_iter(b, it)
+        && getter_post::<TagHeader, T>(it, typ_is(num), r)
+}
+
+/// "the tag's type number is `num`"
+pub open spec fn typ_is(num: u32) -> spec_fn(TagHeader) -> bool {
+    |h: TagHeader| h.typ.0 == num
+}
+
+/// the iterator state `tags()` starts from: offset 8 of the region, covering exactly the rest of it
+pub open spec fn mbi_iter<'a>(b: &BootInformation<'a>, it: TagIter<'a, TagHeader>) -> bool {
+    &&& it.wf()
+    &&& it.next_tag_offset == 0
+    &&& slice_addr(it.buffer) == ref_addr(b.0) + 8
+    &&& slice_prov(it.buffer) == ref_prov(b.0)
+    &&& it.buffer@.len() == val_size(b.0) - 8
 }
 
 pub open spec fn hdr_at_cptr(p: *const BootInformationHeader) -> BootInformationHeader {
